@@ -234,7 +234,9 @@ pub(crate) fn is_plain_value_safe(s: &str, yaml_12: bool, in_flow: bool) -> bool
     if in_flow {
         // In flow style, commas and brackets/braces are structural.
         // In values, ':' is allowed, but '#' would start a comment so still disallow '#'.
-        !contains_any_or_is_control(s, &[',', '[', ']', '{', '}', '#'])
+        // A final ` -` would be followed by `,` / `]` / `}`, which the scanner rejects
+        // ("plain scalar cannot start with '-' followed by ,[]{}").
+        !s.ends_with(" -") && !contains_any_or_is_control(s, &[',', '[', ']', '{', '}', '#'])
     } else {
         // In block style, commas/brackets/braces are ordinary characters.
         !contains_any_or_is_control(s, &['#'])
